@@ -210,7 +210,8 @@ def check(c, ctx):
             expect_eq(c, 'decode(encode(x))', out_line(r), data.hex())
         else:
             p = pos % len(enc)
-            sub = B58.ALPHABET[(pos // len(enc)) % 58]
+            ALPH58 = B58.ALPHABET + '0OIl'                           # incl. the four characters base58 excludes
+            sub = ALPH58[(pos // len(enc)) % len(ALPH58)]
             if sub == enc[p]:
                 return
             bad = enc[:p] + sub + enc[p + 1:]
@@ -236,8 +237,10 @@ def check(c, ctx):
                 expect_eq(c, 'bech32 decode(encode(x))', out_line(r), data.hex())
         else:
             p = pos % len(enc)
-            sub = B32.CHARSET[(pos // len(enc)) % 32]
-            if sub == enc[p] or p < 5:
+            ALPH = B32.CHARSET + B32.CHARSET.upper() + 'bio1BIO'      # charset symbols, their upper-case forms (mixed case is invalid), non-charset characters
+            k2 = (pos // len(enc)) % (len(ALPH) + 4)
+            sub = enc[p].swapcase() if k2 >= len(ALPH) else ALPH[k2]      # (the case flip of the very character gets extra weight)
+            if sub == enc[p]:
                 return
             bad = enc[:p] + sub + enc[p + 1:]
             want = B32.decode(bad)
